@@ -105,6 +105,10 @@ std::vector<double> cell_value(const int kind, const int col, const int s)
         {
             v.push_back(static_cast<double>((s * 37 + col * 11 + 250) % k.classes)); // also labels > 255
         }
+        else if (k.classes == 20)
+        {
+            v.push_back(static_cast<double>((s + col) % k.classes)); // identifies the sample for N <= 20
+        }
         else
         {
             v.push_back(static_cast<double>((s + col + s / 3) % k.classes));
@@ -1073,7 +1077,8 @@ int check_iterators(const dataset_t& ds, const model_t& m, const std::vector<gfe
         {
             expect_target(m, s, etarg);
         }
-        tsize = static_cast<tensor_size_t>(etarg.size()) / n;
+        const auto& t = m.cols[m.target].feature;
+        tsize         = (t.is_sclass() || t.is_mclass()) ? t.classes() : ::nano::size(t.dims());
     }
     struct cover_t
     {
@@ -1196,7 +1201,7 @@ int check_iterators(const dataset_t& ds, const model_t& m, const std::vector<gfe
 
 std::vector<std::vector<tensor_size_t>> index_lists(const int N)
 {
-    std::vector<std::vector<tensor_size_t>> lists(5);
+    std::vector<std::vector<tensor_size_t>> lists(6);
     for (int s = 0; s < N; ++s)
     {
         lists[0].push_back(s);
@@ -1207,7 +1212,7 @@ std::vector<std::vector<tensor_size_t>> index_lists(const int N)
     lists[4] = {N / 2};
     return lists;
 }
-const char* LISTS_JSON = "[\"0..N-1\",\"N-1..0\",\"N times N-1\",\"(0,0,N-1,N-1)\",\"(N/2)\"]";
+const char* LISTS_JSON = "[\"0..N-1\",\"N-1..0\",\"N times N-1\",\"(0,0,N-1,N-1)\",\"(N/2)\",\"empty\"]";
 
 // ---------------------------------------------------------------------------------------------
 // schemas
@@ -1284,94 +1289,140 @@ std::string schema_str(const std::vector<int>& schema)
 
 // =============================================================================================
 // stage "views"
+/// one outer case of the views lattices
+void run_views_case(report_t& r, const std::string& one, std::vector<int> schema, const int N, const int mask, const int tkind,
+                    const int stack, const size_t nthr, const bool do_sample)
+{
+    if (stack_appends_gradient_input(stack))
+    {
+        schema.push_back(K_GRAD);
+    }
+    const auto tpos  = tkind < 0 ? 0U : static_cast<size_t>(tkind) % (schema.size() + 1);
+    const auto model = make_model(schema, N, mask, tkind, tpos);
+    const auto desc  = [&]
+    {
+        return jobj({{"table", jstr(model.str())}, {"mask", jint(mask)}, {"stack", jint(stack)}, {"threads", jint(nthr)}});
+    };
+    sink_t sink;
+    try
+    {
+        const auto source = make_source(model);
+        dataset_t  dataset(*source, nthr);
+        add_generators(dataset, stack, model.inputs.size());
+        std::vector<gfeat_t> feats;
+        if (identify(dataset, model, stack, feats, sink))
+        {
+            buffers_t                   buffers;
+            const std::vector<fstate_t> plain(feats.size());
+            for (const auto& idx : index_lists(N))
+            {
+                r.evaluations += static_cast<uint64_t>(check_direct(dataset, model, feats, plain, idx, buffers, sink, "views"));
+                r.evaluations += static_cast<uint64_t>(check_iterators(dataset, model, feats, idx, {1, 2, N, N + 1}, sink));
+            }
+        }
+    }
+    catch (const std::exception& e)
+    {
+        sink.fail("views:unexpected-exception", jobj({{"what", jstr(e.what())}}));
+    }
+    // non-trivial: some input column has both given and missing samples (the mask bits really select)
+    bool mixed = false, any_missing = false;
+    for (const auto c : model.inputs)
+    {
+        int given = 0;
+        for (const auto& v : model.cols[c].values)
+        {
+            given += v ? 1 : 0;
+        }
+        mixed       = mixed || (given > 0 && given < N);
+        any_missing = any_missing || given < N;
+    }
+    if (mixed)
+    {
+        ++r.nontrivial;
+    }
+    r.outcome(mixed ? "given and missing samples mixed" : any_missing ? "whole columns missing" : "nothing missing");
+    for (const auto& f : sink.fails)
+    {
+        r.violation(f.first, one, jobj({{"case", desc()}, {"observed", f.second}}));
+    }
+    if (do_sample)
+    {
+        r.sample(desc());
+    }
+}
+
 int stage_views(const args_t& args, report_t& r)
 {
-    const bool      T = args.thorough();
+    const bool T = args.thorough();
     // thorough: length-3 schemas over 8 representative kinds (one per storage pool / encoding)
-    const schemas_t schemas(T ? 3 : 2, {1, 2, 3, 4, 6, 13, 14, 15});
-    const std::vector<int> Ns      = {1, 7, 8, 9, 17};
-    const std::vector<int> threads = {1, 2, 16};
-
-    lattice_t lat;
-    lat.axis("schema", schemas.list.size(),
-             jobj({{"kinds", kinds_json()},
-                   {"sequences", jstr(T ? "all of length 1..2 over the 16 kinds, all of length 3 over {sclass3, sclass300, mclass3, f32, "
-                                          "i8, u64, sf32_2x1x2, su8_3x3x2}, 4 fixed 12-feature schemas"
-                                        : "all of length 1..2 over the 16 kinds, 4 fixed 12-feature schemas")}}));
-    lat.axis("samples", Ns.size(), jarr_num(Ns));
-    lat.axis("mask", 6, MASKS_JSON);
-    lat.axis("target", 1 + NK, jstr("absent, then each of the 16 kinds once; kind k is inserted at table position k mod (len+1)"));
-    lat.axis("stack", NSTACKS, STACKS_JSON);
-    lat.axis("threads", threads.size(), jarr_num(threads));
-    lat.describe(r);
+    const schemas_t        schemas(T ? 3 : 2, {1, 2, 3, 4, 6, 13, 14, 15});
+    const std::vector<int> Ns = {1, 7, 8, 9, 17};
+    // (target kind or -1, stack): every target kind once with the identity stack; the other stacks with 3 targets
+    std::vector<std::pair<int, int>> combos;
+    for (int t = -1; t < NK; ++t)
+    {
+        combos.emplace_back(t, 0);
+    }
+    for (int stack = 1; stack < NSTACKS; ++stack)
+    {
+        for (const int t : {-1, 5, 3})
+        {
+            combos.emplace_back(t, stack);
+        }
+    }
+    const auto schema_text = jobj(
+        {{"kinds", kinds_json()},
+         {"sequences", jstr(T ? "all of length 1..2 over the 16 kinds, all of length 3 over {sclass3, sclass300, mclass3, f32, i8, u64, "
+                                "sf32_2x1x2, su8_3x3x2}, 4 fixed 12-feature schemas"
+                              : "all of length 1..2 over the 16 kinds, 4 fixed 12-feature schemas")}});
     r.axis("sample_index_lists", LISTS_JSON);
     r.axis("iterator_batch_sizes", jstr("1, 2, N, N+1 (plus cached flatten/targets with batch 2)"));
+    r.axis("stacks", STACKS_JSON);
 
+    lattice_t lat;
+    lat.axis("schema", schemas.list.size(), schema_text);
+    lat.axis("samples", Ns.size(), jarr_num(Ns));
+    lat.axis("mask", 6, MASKS_JSON);
+    lat.axis("target_x_stack", combos.size(),
+             jstr("stack 0 x {absent, each of the 16 kinds once (kind k inserted at table position k mod (len+1))}; stacks 1..4 x {absent, "
+                  "f64, mclass3}"));
+    lat.describe(r, "views.");
+    r.axis("views.threads", jstr("1"));
     for_each_case(lat, r, "views", [&](const uint64_t index, const std::vector<uint64_t>& d) {
-        auto       schema = schemas.list[d[0]];
-        const int  N      = Ns[d[1]];
-        const int  mask   = static_cast<int>(d[2]);
-        const int  tkind  = static_cast<int>(d[3]) - 1;
-        const int  stack  = static_cast<int>(d[4]);
-        const auto nthr   = static_cast<size_t>(threads[d[5]]);
-        if (stack_appends_gradient_input(stack))
+        run_views_case(r, "views:" + std::to_string(index), schemas.list[d[0]], Ns[d[1]], static_cast<int>(d[2]), combos[d[3]].first,
+                       combos[d[3]].second, 1U, index % 4999 == 0);
+    });
+
+    // the same checks on datasets with a thread pool of 2 and 16 workers (select iterator over features, flatten/targets
+    // iterators over sample chunks), on a thinner lattice: pools of 16 threads cost ~10-50 ms per dataset
+    std::vector<std::vector<int>> mt_schemas;
+    if (T)
+    {
+        mt_schemas = schemas_t(2).list;
+    }
+    else
+    {
+        for (int k = 0; k < NK; ++k)
         {
-            schema.push_back(K_GRAD);
+            mt_schemas.push_back({k});
         }
-        const auto tpos  = tkind < 0 ? 0U : static_cast<size_t>(tkind) % (schema.size() + 1);
-        const auto model = make_model(schema, N, mask, tkind, tpos);
-        const auto one   = "views:" + std::to_string(index);
-        const auto desc  = [&]
-        {
-            return jobj({{"table", jstr(model.str())}, {"mask", jint(mask)}, {"stack", jint(stack)}, {"threads", jint(nthr)}});
-        };
-        sink_t sink;
-        try
-        {
-            const auto source = make_source(model);
-            dataset_t  dataset(*source, nthr);
-            add_generators(dataset, stack, model.inputs.size());
-            std::vector<gfeat_t> feats;
-            if (identify(dataset, model, stack, feats, sink))
-            {
-                buffers_t                   buffers;
-                const std::vector<fstate_t> plain(feats.size());
-                for (const auto& idx : index_lists(N))
-                {
-                    r.evaluations += static_cast<uint64_t>(check_direct(dataset, model, feats, plain, idx, buffers, sink, "views"));
-                    r.evaluations += static_cast<uint64_t>(check_iterators(dataset, model, feats, idx, {1, 2, N, N + 1}, sink));
-                }
-            }
-        }
-        catch (const std::exception& e)
-        {
-            sink.fail("views:unexpected-exception", jobj({{"what", jstr(e.what())}}));
-        }
-        // non-trivial: some input column has both given and missing samples (the mask bits really select)
-        bool mixed = false, any_missing = false;
-        for (const auto c : model.inputs)
-        {
-            int given = 0;
-            for (const auto& v : model.cols[c].values)
-            {
-                given += v ? 1 : 0;
-            }
-            mixed       = mixed || (given > 0 && given < N);
-            any_missing = any_missing || given < N;
-        }
-        if (mixed)
-        {
-            ++r.nontrivial;
-        }
-        r.outcome(mixed ? "given and missing samples mixed" : any_missing ? "whole columns missing" : "nothing missing");
-        for (const auto& f : sink.fails)
-        {
-            r.violation(f.first, one, jobj({{"case", desc()}, {"observed", f.second}}));
-        }
-        if (index % 4999 == 0)
-        {
-            r.sample(desc());
-        }
+        mt_schemas.insert(mt_schemas.end(), FIXED_SCHEMAS.begin(), FIXED_SCHEMAS.end());
+    }
+    const std::vector<int>                 mt_Ns      = {1, 8, 17};
+    const std::vector<int>                 mt_masks   = {0, 4};
+    const std::vector<std::pair<int, int>> mt_combos  = {{-1, 0}, {3, 0}, {-1, 3}, {3, 3}, {5, 4}};
+    const std::vector<int>                 mt_threads = {2, 16};
+    lattice_t                              mt;
+    mt.axis("schema", mt_schemas.size(), jstr(T ? "all of length 1..2 over the 16 kinds, 4 fixed schemas" : "each kind alone, 4 fixed schemas"));
+    mt.axis("samples", mt_Ns.size(), jarr_num(mt_Ns));
+    mt.axis("mask", mt_masks.size(), jstr("all given | every other"));
+    mt.axis("target_x_stack", mt_combos.size(), jstr("(absent,0) (mclass3,0) (absent,3) (mclass3,3) (f64,4)"));
+    mt.axis("threads", mt_threads.size(), jarr_num(mt_threads));
+    mt.describe(r, "viewsmt.");
+    for_each_case(mt, r, "viewsmt", [&](const uint64_t index, const std::vector<uint64_t>& d) {
+        run_views_case(r, "viewsmt:" + std::to_string(index), mt_schemas[d[0]], mt_Ns[d[1]], mt_masks[d[2]], mt_combos[d[3]].first,
+                       mt_combos[d[3]].second, static_cast<size_t>(mt_threads[d[4]]), index % 499 == 0);
     });
     return r.finish();
 }
@@ -1393,6 +1444,7 @@ struct probe_t
 
 constexpr int EXIT_THREW    = 10;
 constexpr int EXIT_RETURNED = 11;
+constexpr int EXIT_SKIPPED  = 13;
 
 /// runs in the child: 10 = rejected with an exception, 11 = returned normally
 int run_probe(const model_t& model, const int stack, const probe_t& p)
@@ -1483,11 +1535,13 @@ struct probe_result_t
 
 /// run the probes in forked children: one child works through the list and reports every result over a pipe; when a probe
 /// kills the child (sanitizer report, signal) that probe is recorded as crashed and a new child continues after it
-std::vector<probe_result_t> fork_probes(const model_t& model, const int stack, const std::vector<probe_t>& probes, uint64_t& forks)
+template <class tklass, class tbody>
+std::vector<probe_result_t> fork_each(const size_t count, const tklass& klass_of, const tbody& body, uint64_t& forks)
 {
-    std::vector<probe_result_t> results(probes.size());
-    size_t                      next = 0;
-    while (next < probes.size())
+    std::vector<probe_result_t>  results(count);
+    std::map<std::string, int>   crashes; ///< per out-of-range class: a class that killed two children is not probed further
+    size_t                       next = 0;
+    while (next < count)
     {
         int fds[2];
         std::fflush(stdout);
@@ -1509,18 +1563,26 @@ std::vector<probe_result_t> fork_probes(const model_t& model, const int stack, c
             close(fds[0]);
             dup2(fds[1], 2);
             close(fds[1]);
-            for (size_t i = next; i < probes.size(); ++i)
+            for (size_t i = next; i < count; ++i)
             {
                 std::fprintf(stderr, "\n@BEGIN %zu\n", i);
                 std::fflush(stderr);
-                int code = 12;
-                try
+                int        code = 12;
+                const auto seen = crashes.find(klass_of(i));
+                if (seen != crashes.end() && seen->second >= 2)
                 {
-                    code = run_probe(model, stack, probes[i]);
+                    code = EXIT_SKIPPED;
                 }
-                catch (...)
+                else
                 {
-                    code = 12;
+                    try
+                    {
+                        code = body(i);
+                    }
+                    catch (...)
+                    {
+                        code = 12;
+                    }
                 }
                 std::fprintf(stderr, "\n@END %zu %d\n", i, code);
                 std::fflush(stderr);
@@ -1541,7 +1603,7 @@ std::vector<probe_result_t> fork_probes(const model_t& model, const int stack, c
         const int code = WIFEXITED(status) ? WEXITSTATUS(status) : 1000 + (WIFSIGNALED(status) ? WTERMSIG(status) : 0);
         size_t    pos  = 0;
         bool      died = false;
-        for (size_t i = next; i < probes.size(); ++i)
+        for (size_t i = next; i < count; ++i)
         {
             const auto btag = "\n@BEGIN " + std::to_string(i) + "\n";
             const auto etag = "\n@END " + std::to_string(i) + " ";
@@ -1555,6 +1617,7 @@ std::vector<probe_result_t> fork_probes(const model_t& model, const int stack, c
             if (e == std::string::npos)
             {
                 results[i].code = code == 0 ? 1999 : code;
+                crashes[klass_of(i)] += 1;
                 results[i].log  = text.substr(b + btag.size(), 6000);
                 next            = i + 1;
                 died            = true;
@@ -1566,10 +1629,17 @@ std::vector<probe_result_t> fork_probes(const model_t& model, const int stack, c
         }
         if (!died)
         {
-            next = probes.size();
+            next = count;
         }
     }
     return results;
+}
+
+std::vector<probe_result_t> fork_probes(const model_t& model, const int stack, const std::vector<probe_t>& probes, uint64_t& forks)
+{
+    return fork_each(
+        probes.size(), [&](const size_t i) { return probes[i].klass; },
+        [&](const size_t i) { return run_probe(model, stack, probes[i]); }, forks);
 }
 
 std::string sanitizer_headline(const std::string& log)
@@ -1712,6 +1782,11 @@ int stage_bounds(const args_t& args, report_t& r)
         {
             const auto& p   = probes[ip];
             const auto& res = results[ip];
+            if (res.code == EXIT_SKIPPED)
+            {
+                r.outcome("not probed: this class already killed two children in this configuration");
+                continue;
+            }
             r.evaluations += 1;
             const bool threw    = res.code == EXIT_THREW;
             const bool returned = res.code == EXIT_RETURNED;
@@ -1750,9 +1825,535 @@ int stage_bounds(const args_t& args, report_t& r)
     return r.finish();
 }
 
-// HISTORY-STAGE-PLACEHOLDER
-int stage_history(const args_t&, report_t& r)
+// =============================================================================================
+// stage "pairs" (ASan build): the pairwise product constructed from two feature lists, every case in a forked child
+constexpr int EXIT_MISMATCH = 20;
+
+int stage_pairs(const args_t& args, report_t& r)
 {
+    struct pcase_t
+    {
+        int                        K = 2; ///< scalar inputs; input 1 is an sclass3 feature that the generator must ignore
+        std::vector<tensor_size_t> list1, list2;
+    };
+    std::vector<pcase_t> cases;
+    const int            maxK = args.thorough() ? 4 : 3;
+    for (int K = 2; K <= maxK; ++K)
+    {
+        const int inputs = K + 1;
+        for (int rev = 0; rev < (args.thorough() ? 2 : 1); ++rev)
+        {
+            for (int m1 = 1; m1 < (1 << inputs); ++m1)
+            {
+                for (int m2 = 1; m2 < (1 << inputs); ++m2)
+                {
+                    pcase_t c;
+                    c.K = K;
+                    for (int i = 0; i < inputs; ++i)
+                    {
+                        const int j = rev ? inputs - 1 - i : i;
+                        if (m1 & (1 << j))
+                        {
+                            c.list1.push_back(j);
+                        }
+                        if (m2 & (1 << j))
+                        {
+                            c.list2.push_back(j);
+                        }
+                    }
+                    cases.push_back(std::move(c));
+                }
+            }
+        }
+    }
+    r.axis("dataset", jstr("N=7, every other value missing, inputs (scalar, sclass3, scalar[, scalar[, scalar]]) with scalar kinds f64, i16, u64, f32"));
+    r.axis("generators", jstr("scalar identity + pairwise_product_generator_t(features1, features2)"));
+    r.axis("feature_lists", jstr(args.thorough() ? "all pairs of non-empty subsets of the inputs, K = 2..4 scalars, ascending and descending"
+                                                 : "all pairs of non-empty subsets of the inputs, K = 2..3 scalars, ascending"));
+    lattice_t lat;
+    lat.axis("case", cases.size(), "");
+    lat.describe(r, "pairs.");
+    uint64_t total_forks = 0;
+    // run this shard's cases in forked children (a sanitizer report ends one child, the next continues)
+    std::vector<uint64_t> mine;
+    for_each_case(lat, r, "pairs", [&](const uint64_t index, const std::vector<uint64_t>&) { mine.push_back(index); });
+    const auto make = [&](const pcase_t& c)
+    {
+        const int        kinds[] = {5, 7, 13, 4};
+        std::vector<int> schema;
+        for (int k = 0; k < c.K; ++k)
+        {
+            schema.push_back(kinds[k]);
+            if (k == 0)
+            {
+                schema.push_back(1);
+            }
+        }
+        return make_model(schema, 7, 4, -1, 0);
+    };
+    const auto expected = [&](const model_t& m, const pcase_t& c)
+    {
+        std::multiset<std::string> e;
+        for (const auto col : m.inputs)
+        {
+            if (m.cols[col].feature.is_scalar())
+            {
+                e.insert("id:" + m.cols[col].feature.name());
+            }
+        }
+        std::set<std::pair<size_t, size_t>> pairs;
+        for (const auto a : c.list1)
+        {
+            for (const auto b : c.list2)
+            {
+                const auto ca = m.inputs[static_cast<size_t>(a)], cb = m.inputs[static_cast<size_t>(b)];
+                if (m.cols[ca].feature.is_scalar() && m.cols[cb].feature.is_scalar())
+                {
+                    pairs.insert({std::min(ca, cb), std::max(ca, cb)});
+                }
+            }
+        }
+        for (const auto& p : pairs)
+        {
+            e.insert("prod:" + m.cols[p.first].feature.name() + "*" + m.cols[p.second].feature.name());
+        }
+        return e;
+    };
+    const auto body = [&](const size_t i)
+    {
+        const auto& c = cases[mine[i]];
+        const auto  m = make(c);
+        sink_t      sink;
+        try
+        {
+            const auto source = make_source(m);
+            dataset_t  dataset(*source, 1U);
+            dataset.add<scalar_identity_generator_t>();
+            dataset.add<pairwise_product_generator_t>(to_indices(c.list1), to_indices(c.list2));
+            std::vector<gfeat_t> feats;
+            if (identify(dataset, m, -1, feats, sink))
+            {
+                std::multiset<std::string> got;
+                for (const auto& g : feats)
+                {
+                    got.insert(g.signature);
+                }
+                const auto e = expected(m, c);
+                if (got != e)
+                {
+                    sink.fail("pairs:feature-set", jobj({{"got", jarr_str(std::vector<std::string>(got.begin(), got.end()))},
+                                                         {"expected", jarr_str(std::vector<std::string>(e.begin(), e.end()))}}));
+                }
+                buffers_t                   buffers;
+                const std::vector<fstate_t> plain(feats.size());
+                for (const auto& idx : index_lists(7))
+                {
+                    check_direct(dataset, m, feats, plain, idx, buffers, sink, "pairs");
+                }
+            }
+        }
+        catch (const std::exception& e)
+        {
+            sink.fail("pairs:unexpected-exception", jobj({{"what", jstr(e.what())}}));
+        }
+        for (const auto& f : sink.fails)
+        {
+            std::fprintf(stderr, "@FAIL %s\t%s\n", f.first.c_str(), f.second.c_str());
+        }
+        return sink.ok() ? 0 : EXIT_MISMATCH;
+    };
+    if (!mine.empty())
+    {
+        std::fprintf(stderr, "CASE pairs:%llu\n", static_cast<unsigned long long>(mine.front()));
+        std::fflush(stderr);
+    }
+    const auto results = fork_each(
+        mine.size(), [&](const size_t i) { return "case" + std::to_string(i); }, body, total_forks);
+    for (size_t i = 0; i < mine.size(); ++i)
+    {
+        const auto& c   = cases[mine[i]];
+        const auto  m   = make(c);
+        const auto  one = "pairs:" + std::to_string(mine[i]);
+        const auto& res = results[i];
+        r.evaluations += 1;
+        const bool swapped = [&]
+        {
+            for (const auto a : c.list1)
+            {
+                for (const auto b : c.list2)
+                {
+                    if (a > b && a != 1 && b != 1)
+                    {
+                        return true;
+                    }
+                }
+            }
+            return false;
+        }();
+        r.nontrivial += swapped ? 1 : 0;
+        const auto desc = jobj({{"table", jstr(m.str())}, {"features1", jarr_num(c.list1)}, {"features2", jarr_num(c.list2)}});
+        if (res.code == 0)
+        {
+            r.outcome(swapped ? "agrees (some pair has its larger input in features1)" : "agrees");
+            continue;
+        }
+        if (res.code == EXIT_MISMATCH)
+        {
+            r.outcome("views disagree with the table");
+            size_t pos = 0;
+            while ((pos = res.log.find("@FAIL ", pos)) != std::string::npos)
+            {
+                const auto tab = res.log.find('\t', pos), eol = res.log.find('\n', pos);
+                if (tab == std::string::npos || eol == std::string::npos || tab > eol)
+                {
+                    break;
+                }
+                r.violation(res.log.substr(pos + 6, tab - pos - 6), one,
+                            jobj({{"case", desc}, {"observed", res.log.substr(tab + 1, eol - tab - 1)}}));
+                pos = eol;
+            }
+            continue;
+        }
+        r.outcome("sanitizer report / crash");
+        r.violation("pairs:two-list-product:memory-error", one,
+                    jobj({{"case", desc}, {"exit_code", jint(res.code)}, {"child_output", jstr(sanitizer_headline(res.log))}}));
+        if (i % 37 == 0)
+        {
+            r.sample(desc);
+        }
+    }
+    r.note("forked_children", jint(total_forks));
+    return r.finish();
+}
+
+// =============================================================================================
+// stage "history": BFS over drop / shuffle / undrop / unshuffle histories
+struct hconfig_t
+{
+    int schema = 0; ///< 0: (sclass20, f64, sf32_2x1x2) = three generators; 1: (f32, i16, u64) = one generator
+    int N      = 7;
+    std::string str() const { return "hist:" + std::to_string(schema) + ":" + std::to_string(N); }
+    std::vector<int> kinds() const { return schema == 0 ? std::vector<int>{K_S20, 5, 14} : std::vector<int>{4, 7, 13}; }
+};
+constexpr int HOPS = 8;
+std::string op_name(const int op)
+{
+    return op < 3 ? "drop(" + std::to_string(op) + ")" : op < 6 ? "shuffle(" + std::to_string(op - 3) + ")" : op == 6 ? "undrop" : "unshuffle";
+}
+std::string hist_str(const std::vector<int>& h)
+{
+    std::string s;
+    for (size_t i = 0; i < h.size(); ++i)
+    {
+        s += (i ? "," : "") + std::to_string(h[i]);
+    }
+    return s;
+}
+std::string hist_names(const std::vector<int>& h)
+{
+    std::string s;
+    for (size_t i = 0; i < h.size(); ++i)
+    {
+        s += (i ? " " : "") + op_name(h[i]);
+    }
+    return s;
+}
+
+struct hrunner_t
+{
+    hconfig_t cfg;
+    report_t* r = nullptr;
+    uint64_t  nonplain = 0;
+
+    std::string apply(const std::vector<int>& hist)
+    {
+        const auto model = make_model(cfg.kinds(), cfg.N, 2, -1, 0); // sample 0 missing in every feature
+        const auto one   = cfg.str() + "|" + hist_str(hist);
+        const auto N     = static_cast<tensor_size_t>(cfg.N);
+        verif::detrand_reset(0xC08);
+        const auto source = make_source(model);
+        dataset_t  dataset(*source, 1U);
+        vt::add_identity_generators(dataset);
+        sink_t               sink;
+        std::vector<gfeat_t> feats;
+        if (!identify(dataset, model, 0, feats, sink) || !sink.ok() || feats.size() != 3)
+        {
+            r->violation("history:bookkeeping", one, jobj({{"config", jstr(cfg.str())}}));
+            return "";
+        }
+        std::vector<tensor_size_t> all;
+        for (tensor_size_t s = 0; s < N; ++s)
+        {
+            all.push_back(s);
+        }
+        const auto            all_idx = to_indices(all);
+        std::vector<fstate_t> states(3);
+        buffers_t             buffers;
+        const auto            fail = [&](const std::string& key, const std::string& detail)
+        {
+            r->violation(key, one, jobj({{"config", jstr(cfg.str())}, {"table", jstr(model.str())}, {"history", jstr(hist_names(hist))},
+                                         {"observed", detail}}));
+        };
+        const auto expected_select = [&](const size_t f, const fstate_t& st)
+        {
+            std::vector<double> e;
+            for (const auto s : all)
+            {
+                expect_select(model, feats[f], st.source(s), e);
+            }
+            return e;
+        };
+        for (size_t step = 0; step < hist.size(); ++step)
+        {
+            const int  op   = hist[step];
+            const bool last = step + 1 == hist.size();
+            // candidates per feature after this operation (what the statement leaves open is listed twice)
+            std::vector<std::vector<fstate_t>> cand(3);
+            std::vector<bool>                  fresh(3, false); ///< a new permutation has to be read from shuffled()
+            for (size_t f = 0; f < 3; ++f)
+            {
+                cand[f] = {states[f]};
+            }
+            if (op < 3)
+            {
+                dataset.drop(op);
+                fstate_t d;
+                d.mode                       = 1;
+                cand[static_cast<size_t>(op)] = {d};
+            }
+            else if (op < 6)
+            {
+                const auto f = static_cast<size_t>(op - 3);
+                dataset.shuffle(op - 3);
+                fstate_t sh;
+                sh.mode  = 2;
+                fresh[f] = true;
+                cand[f]  = {sh};
+                if (states[f].mode == 1)
+                {
+                    fstate_t d;
+                    d.mode = 1;
+                    cand[f].push_back(d); // shuffling a dropped feature: a permutation of all-missing values is all-missing
+                }
+            }
+            else if (op == 6)
+            {
+                dataset.undrop();
+                for (size_t f = 0; f < 3; ++f)
+                {
+                    if (states[f].mode == 1)
+                    {
+                        cand[f] = {fstate_t{}};
+                    }
+                    else if (states[f].mode == 2)
+                    {
+                        cand[f] = {states[f], fstate_t{}}; // does undrop() also clear a shuffle? the statement is silent
+                    }
+                }
+            }
+            else
+            {
+                dataset.unshuffle();
+                for (size_t f = 0; f < 3; ++f)
+                {
+                    if (states[f].mode == 2)
+                    {
+                        cand[f] = {fstate_t{}};
+                    }
+                    else if (states[f].mode == 1)
+                    {
+                        cand[f] = {states[f], fstate_t{}}; // does unshuffle() also undrop? the statement is silent
+                    }
+                }
+            }
+            // resolve every feature from its per-feature view over all samples
+            for (size_t f = 0; f < 3; ++f)
+            {
+                bool       shape_ok = true;
+                const auto got      = do_select(dataset, all_idx, static_cast<tensor_size_t>(f), feats[f].desc, buffers, shape_ok);
+                fstate_t   dropped;
+                dropped.mode          = 1;
+                const bool all_missing = first_diff(got, expected_select(f, dropped)) < 0;
+                int        chosen      = -1;
+                for (size_t c = 0; c < cand[f].size() && chosen < 0; ++c)
+                {
+                    auto& st = cand[f][c];
+                    if (st.mode == 2 && fresh[f])
+                    {
+                        if (all_missing && cand[f].size() > 1)
+                        {
+                            continue; // the implementation kept the feature dropped: shuffled() must not be called
+                        }
+                        // the reported bijection (only asked for when the reference says the feature is shuffled)
+                        const auto          pi = dataset.shuffled(static_cast<tensor_size_t>(f), all_idx);
+                        std::vector<int>    seen(static_cast<size_t>(N), 0);
+                        bool                bij = pi.size() == N;
+                        for (tensor_size_t i = 0; bij && i < N; ++i)
+                        {
+                            bij = pi(i) >= 0 && pi(i) < N && seen[static_cast<size_t>(pi(i))]++ == 0;
+                        }
+                        if (!bij)
+                        {
+                            if (last)
+                            {
+                                fail("history:shuffled-not-a-bijection", jobj({{"feature", jint(f)}, {"shuffled", jarr_num(to_vec(pi))}}));
+                            }
+                            return "";
+                        }
+                        st.perm.assign(pi.data(), pi.data() + N);
+                    }
+                    if (first_diff(got, expected_select(f, st)) < 0)
+                    {
+                        chosen = static_cast<int>(c);
+                    }
+                }
+                if (chosen < 0)
+                {
+                    if (last)
+                    {
+                        std::vector<std::string> modes;
+                        for (const auto& st : cand[f])
+                        {
+                            modes.emplace_back(st.mode == 0 ? "plain" : st.mode == 1 ? "dropped" : "shuffled " + jarr_num(st.perm));
+                        }
+                        fail("history:" + std::string(op < 3 ? "drop" : op < 6 ? "shuffle" : op == 6 ? "undrop" : "unshuffle") + ":" +
+                                 (f == static_cast<size_t>(op % 3) && op < 6 ? "target-feature" : "other-feature") + ":" + cls_name(feats[f].desc),
+                             jobj({{"feature", jint(f)}, {"admissible", jarr_str(modes)}, {"select_over_all_samples", jarr_num(got)},
+                                   {"plain_would_be", jarr_num(expected_select(f, fstate_t{}))}}));
+                    }
+                    return "";
+                }
+                if (last && cand[f].size() > 1)
+                {
+                    const auto& st = cand[f][static_cast<size_t>(chosen)];
+                    r->outcome(op == 6   ? (st.mode == 2 ? "undrop keeps a shuffle" : "undrop also clears a shuffle")
+                               : op == 7 ? (st.mode == 1 ? "unshuffle keeps a drop" : "unshuffle also undrops")
+                                         : (st.mode == 2 ? "shuffle overrides a drop" : "shuffle keeps a drop"));
+                }
+                states[f] = cand[f][static_cast<size_t>(chosen)];
+            }
+            if (!last)
+            {
+                continue;
+            }
+            // the complete comparison in the resolved state: both views, all features, three index lists
+            const std::vector<std::vector<tensor_size_t>> lists = {all, std::vector<tensor_size_t>(all.rbegin(), all.rend()), {0, 0, N - 1, N - 1}};
+            for (const auto& idx : lists)
+            {
+                r->evaluations += static_cast<uint64_t>(check_direct(dataset, model, feats, states, idx, buffers, sink, "history", false));
+                for (size_t f = 0; f < 3; ++f)
+                {
+                    if (states[f].mode != 2)
+                    {
+                        continue;
+                    }
+                    const auto pi = dataset.shuffled(static_cast<tensor_size_t>(f), to_indices(idx));
+                    bool       ok = pi.size() == static_cast<tensor_size_t>(idx.size());
+                    for (size_t i = 0; ok && i < idx.size(); ++i)
+                    {
+                        ok = pi(static_cast<tensor_size_t>(i)) == states[f].perm[static_cast<size_t>(idx[i])];
+                    }
+                    if (!ok)
+                    {
+                        sink.fail("history:shuffled-changes", jobj({{"feature", jint(f)}, {"samples", jarr_num(idx)},
+                                                                    {"shuffled", jarr_num(to_vec(pi))}, {"all_samples", jarr_num(states[f].perm)}}));
+                    }
+                }
+            }
+            for (const auto& fl : sink.fails)
+            {
+                fail(fl.first, fl.second);
+            }
+            if (!sink.ok())
+            {
+                return "";
+            }
+        }
+        // canonical state: the reference state of every feature, plus (history-derived) whether the feature was shuffled
+        // since the last unshuffle(): a stale permutation may still be stored for it
+        std::string canon;
+        bool        any = false;
+        for (size_t f = 0; f < 3; ++f)
+        {
+            bool stale = false;
+            for (const auto op : hist)
+            {
+                stale = op == 7 ? false : (op == static_cast<int>(3 + f) ? true : stale);
+            }
+            canon += std::to_string(states[f].mode) + (states[f].mode == 2 ? jarr_num(states[f].perm) : "") + (stale ? "s" : "") + ";";
+            any = any || states[f].mode != 0;
+        }
+        nonplain += any ? 1 : 0;
+        return canon;
+    }
+};
+
+int stage_history(const args_t& args, report_t& r)
+{
+    hrunner_t run;
+    run.r = &r;
+    if (!args.one.empty())
+    {
+        std::vector<int> hist;
+        if (std::sscanf(args.one.c_str(), "hist:%d:%d", &run.cfg.schema, &run.cfg.N) != 2)
+        {
+            return r.finish(); // a case of another stage
+        }
+        const auto bar = args.one.find('|');
+        if (bar != std::string::npos)
+        {
+            const char* q = args.one.c_str() + bar + 1;
+            while (*q)
+            {
+                hist.push_back(static_cast<int>(std::strtol(q, const_cast<char**>(&q), 10)));
+                if (*q == ',')
+                {
+                    ++q;
+                }
+            }
+        }
+        run.apply(hist);
+        r.transitions = r.states = r.traces = 1;
+        return r.finish();
+    }
+    const int depth = static_cast<int>(args.geti("depth", args.thorough() ? 5 : 4));
+    r.axis("datasets", jstr("(sclass20, f64, sf32_2x1x2): one feature per generator | (f32, i16, u64): three features of one generator; "
+                            "sample 0 missing, all other values distinct per sample"));
+    r.axis("samples", jstr("7, 8, 9, 17"));
+    r.axis("operations", jstr("drop(0..2), shuffle(0..2), undrop, unshuffle"));
+    r.axis("max_history_length", jint(depth));
+    uint64_t index = 0;
+    for (int schema = 0; schema < 2; ++schema)
+    {
+        for (const int N : {7, 8, 9, 17})
+        {
+            if (!args.mine(index++))
+            {
+                continue;
+            }
+            run.cfg.schema = schema;
+            run.cfg.N      = N;
+            const auto st  = mc::bfs(
+                HOPS, depth, [&](const std::vector<int>& h) { return run.apply(h); }, [&] { return r.out_of_time(); });
+            r.states += st.states;
+            r.transitions += st.transitions;
+            r.traces += st.transitions;
+            if (!st.replay_ok)
+            {
+                std::fprintf(stderr, "canon-on-replay failed\n");
+                return 2;
+            }
+            if (!st.complete)
+            {
+                r.cap("deadline hit in " + run.cfg.str());
+            }
+            r.sample(jobj({{"config", jstr(run.cfg.str())}, {"states", jint(st.states)}, {"transitions", jint(st.transitions)},
+                           {"max_depth", jint(st.max_depth)}}));
+        }
+    }
+    r.nontrivial = run.nonplain;
+    r.assume("where the statement is silent (undrop on a shuffled feature, unshuffle on a dropped feature, shuffle of a dropped "
+             "feature) either outcome is accepted; the reference continues from the one the implementation shows");
     return r.finish();
 }
 } // namespace
@@ -1792,6 +2393,10 @@ int main(int argc, char** argv)
     if (stage == "bounds")
     {
         return stage_bounds(args, r);
+    }
+    if (stage == "pairs")
+    {
+        return stage_pairs(args, r);
     }
     if (stage == "history")
     {
